@@ -13,6 +13,8 @@ ANY number of other threads creating / removing listeners, sending and polling m
   entries that `used_streams` listed, up to the sentinel, AT THE INSTANT THE WALKER TOOK THE LOCK — each once, in list order;
   a concurrent removal (which rewrites the list entry by entry, the cause of D11) cannot make it skip a listed stream nor
   end its walk early;
+* `c07_cancel_all_locked_progress` — once it holds the lock the walker needs no step of anybody else: `2·k + 2` own steps (`k` streams still
+  listed in front of it) finish the walk, whatever the others do in between;
 * `c07_d11_schedule_repaired` — the very schedule of `c07_cancel_all_race_counterexample` (the removal of listener 0 racing with
   the walk over `[0,1,2]`): the removal now waits at `sm.sync.lock`, all three streams are told to end;
 * the pinned, unlocked walk and its counterexample stay in `Props/C07_CancelAll.lean`.
@@ -503,6 +505,97 @@ theorem c07_cancel_all_locked (s : St) (h : Inv s) (hw : s.w = .idle) (as : List
 /-- every reachable state of the model satisfies the lock discipline -/
 theorem inv_reachable (mx : Nat) (as : List Act) : Inv (run (init mx) as) := inv_run _ as (inv_init mx)
 
+/-! ## progress: holding the lock, the walker depends on nobody -/
+
+/-- how many own steps the walker still needs -/
+def mu (s : St) : Nat :=
+  match s.w with
+  | .read i => 2 * (walkFrom s.m.used s.m.MAX i).length + 2
+  | .cancel i _ => 2 * (walkFrom s.m.used s.m.MAX (i + 1)).length + 3
+  | .unlock => 1
+  | _ => 0
+
+def wsteps : List Act → Nat
+  | [] => 0
+  | .wstep :: as => wsteps as + 1
+  | _ :: as => wsteps as
+
+theorem done_stays (as : List Act) : ∀ (s : St), s.w = .done → (run s as).w = .done := by
+  induction as with
+  | nil => intro s h; exact h
+  | cons a as ih =>
+    intro s h
+    show (run (apply s a) as).w = .done
+    apply ih
+    cases a with
+    | multi b => exact h
+    | cancelAll => simp only [apply]; split <;> simp_all
+    | wstep => simp only [apply, h]
+
+/-- an action of anybody else leaves the walker where it is, with as much left to do -/
+theorem other_keeps (s : St) (b : Multi.Act) (h : Inv s) (ha : active s.w) :
+    (apply s (.multi b)).w = s.w ∧ mu (apply s (.multi b)) = mu s := by
+  obtain ⟨hu, hm⟩ := multi_apply_used s.m b (h.h3 ha).2
+  refine ⟨rfl, ?_⟩
+  simp only [mu, apply, hu, hm]
+
+/-- each own step of the walker takes one off -/
+theorem wstep_mu (s : St) (ha : active s.w) : mu (apply s .wstep) + 1 = mu s ∧ (active (apply s .wstep).w ∨ (apply s .wstep).w = .done) := by
+  cases hw : s.w with
+  | idle => rw [hw] at ha; exact absurd ha (by simp [active])
+  | done => rw [hw] at ha; exact absurd ha (by simp [active])
+  | lock => rw [hw] at ha; exact absurd ha (by simp [active])
+  | spin => rw [hw] at ha; exact absurd ha (by simp [active])
+  | read i =>
+    by_cases hc : i ≥ s.m.MAX ∨ s.m.used.getD i s.m.MAX = s.m.MAX
+    · have e : apply s .wstep = { s with w := .unlock } := by simp only [apply, hw]; rw [if_pos hc]
+      rw [e]; simp only [mu, hw, walkFrom_stop _ _ _ hc]
+      exact ⟨rfl, Or.inl trivial⟩
+    · have h1 : i < s.m.MAX := by omega
+      have h2 : s.m.used.getD i s.m.MAX ≠ s.m.MAX := fun e => hc (Or.inr e)
+      have e : apply s .wstep = { s with w := .cancel i (s.m.used.getD i s.m.MAX) } := by simp only [apply, hw]; rw [if_neg hc]
+      rw [e]; simp only [mu, hw, walkFrom_go _ _ _ h1 h2, List.length_cons]
+      exact ⟨by omega, Or.inl trivial⟩
+  | cancel i id =>
+    have e : apply s .wstep = { s with m := Multi.apply s.m (.cancel id), cancelled := s.cancelled ++ [id], w := .read (i + 1) } := by
+      simp only [apply, hw]
+    rw [e]
+    refine ⟨?_, Or.inl trivial⟩
+    simp only [mu, hw, Multi.apply]
+  | unlock =>
+    have e : apply s .wstep = { s with m := { s.m with slock := false }, w := .done } := by simp only [apply, hw]
+    rw [e]
+    exact ⟨by simp only [mu, hw], Or.inr rfl⟩
+
+/-- **progress.**  Once the walker holds the lock, `2·k + 2` own steps finish the walk (`k` = streams still listed in front of it), WHATEVER the
+    other threads do in between and however their actions are interleaved with its steps: nobody can make it wait, spin or start over. -/
+theorem c07_cancel_all_locked_progress (as : List Act) : ∀ (s : St), Inv s → (active s.w ∨ s.w = .done) → mu s ≤ wsteps as →
+    (run s as).w = .done := by
+  induction as with
+  | nil =>
+    intro s _ ha hm
+    rcases ha with ha | hd
+    · exfalso
+      simp only [wsteps, Nat.le_zero] at hm
+      cases hw : s.w <;> simp only [mu, hw] at hm <;> first | omega | (rw [hw] at ha; exact absurd ha (by simp [active]))
+    · exact hd
+  | cons a as ih =>
+    intro s h ha hm
+    rcases ha with ha | hd
+    · show (run (apply s a) as).w = .done
+      cases a with
+      | multi b =>
+        obtain ⟨e1, e2⟩ := other_keeps s b h ha
+        exact ih _ (inv_apply s _ h) (Or.inl (by rw [e1]; exact ha)) (by rw [e2]; simpa [wsteps] using hm)
+      | cancelAll =>
+        have : apply s .cancelAll = s := by
+          simp only [apply]; rw [if_neg]; intro e; rw [e] at ha; exact ha
+        rw [this]; exact ih s h (Or.inl ha) (by simpa [wsteps] using hm)
+      | wstep =>
+        obtain ⟨e1, e2⟩ := wstep_mu s ha
+        exact ih _ (inv_apply s _ h) e2 (by simp only [wsteps] at hm; omega)
+    · exact done_stays _ s hd
+
 /-! ## the D11 schedule on the repaired walk -/
 
 def createActs (t : Nat) : List Act := [.multi (.create t)] ++ List.replicate 9 (.multi (.step t)) ++ [.multi (.ack t)]
@@ -535,6 +628,7 @@ example : let s := run (init 4) (createActs 0 ++ createActs 0 ++ createActs 0 ++
 
 #print axioms inv_run
 #print axioms c07_cancel_all_locked
+#print axioms c07_cancel_all_locked_progress
 #print axioms c07_d11_schedule_repaired
 
 end Mutiny.CancelAllLock
